@@ -149,7 +149,7 @@ func runC15(c *ctx) error {
 	}{
 		{false, nil, "absent"}, {true, "command", "command"}, {true, "script", "script"}, {true, "wait", "wait"}, {true, "waiter", "waiter"},
 		{true, "block", "block"}, {true, "input", "input"}, {true, "manual", "manual"}, {true, "trigger", "trigger"}, {true, "group", "group"},
-		{true, "deploy", "unknown:deploy"}, {true, "", "unknown:empty"}, {true, "Command", "unknown:Command"}, {true, "wait ", "unknown:wait-space"},
+		{true, "deploy", "unknown:deploy"}, {true, "commands", "unknown:commands"}, {true, "plugins", "unknown:plugins"}, {true, "steps", "unknown:steps"}, {true, "", "unknown:empty"}, {true, "Command", "unknown:Command"}, {true, "wait ", "unknown:wait-space"},
 		{true, 7, "nonstring:int"}, {true, nil, "nonstring:null"}, {true, true, "nonstring:bool"}, {true, []any{"wait"}, "nonstring:list"},
 	}
 	stride := 1
@@ -308,7 +308,7 @@ func runC15(c *ctx) error {
 	}
 	c.res.Sample(map[string]any{"scalar": "waiter"})
 	c.res.Exhaustive = true
-	c.res.Rule = "every subset of the ten kind keys x every type value (9 known, 4 unknown strings, 4 non-strings, absent), each once plain, once with 1-3 extra keys from an adversarial pool at a random position, once with the kind keys in a shuffled document order, and once with every kind key null-valued, through the real stepFromMap; all scalar strings of a pool through unmarshalStep. Non-trivial = at least one kind key or a type; distinct by (subset, type, extras)."
+	c.res.Rule = "every subset of the ten kind keys x every type value (9 known, 7 unknown strings incl. the kind keys that are not type values, 4 non-strings, absent), each once plain, once with 1-3 extra keys from an adversarial pool at a random position, once with the kind keys in a shuffled document order, and once with every kind key null-valued, through the real stepFromMap; all scalar strings of a pool through unmarshalStep. Non-trivial = at least one kind key or a type; distinct by (subset, type, extras)."
 	mm, total, err := core.RunSessions(c.driver, []*core.Session{sess}, 20, 0)
 	c.res.ModelRequests = total
 	c.res.Mismatches = mm
